@@ -29,11 +29,12 @@ def run(inst):
     from leuvenmapmatching.util.segment import Segment
     _, mode, gname, g, fam = inst[:5]
     budget = inst[5] if len(inst) > 5 else None
-    kw = inst[6] if len(inst) > 6 else {}
+    kw = dict(inst[6]) if len(inst) > 6 else {}
+    only = {0: kw.pop('only0', None), 1: kw.pop('only1', None)}      # restrict which states may be present in column 0 / 1
     cfg = Cfg(fam=fam, T=2, ne=True, goingback=False, sym_maxdist=False, sym_init=False, sym_minprob=False, **kw)
     AbsMap, TableMap = make_absmap_class(), make_tablemap_class()
     shims.install()
-    name = f"ne-step[{mode}] {gname} {fam}" + (f" {kw}" if kw else "")
+    name = f"ne-step[{mode}] {gname} {fam}" + (f" {kw}" if kw else "") + (f" columns restricted to {only}" if only[0] or only[1] else "")
     edges_only = fam != 'simple_n'
     states = [(u, v) for u in g for v in g[u] if u != v] if edges_only else list(g)
 
@@ -99,6 +100,9 @@ def run(inst):
         for t in (0, 1):
             for st in states:
                 tag = f"{st[0]}{st[1]}_{t}" if isinstance(st, tuple) else f"{st}_{t}"
+                if only[t] is not None and st not in [tuple(x) if isinstance(x, list) else x for x in only[t]]:
+                    present[(st, t)] = False
+                    continue
                 present[(st, t)] = eng.decide(z3.Bool(f"present_{tag}"))
                 if present[(st, t)]:
                     lp = z3.Real(f"lp_{tag}")
